@@ -550,6 +550,16 @@ def conc_linearizable(run):
     if "WARNING: DATA RACE" in r.stdout:
         path = run.write_replay({"kind": "concurrency", "scenario": "lin", "output": r.stdout[:6000]})
         run.violations.append(("data race while recording concurrent histories", r.stdout[-300:], path, True))
+    # calls made of two critical sections: a queued writer + reader between listing and deleting
+    rounds = 12 if run.tier == "quick" else 150
+    w = sh([h, "-conc", "window", "-seed", str(run.seed), "-n", str(rounds), "-root", os.path.join(run.scratch, "win-db"), "-out", "x"],
+           env=dict(os.environ, GORACE="halt_on_error=0 exitcode=66"), timeout=1800)
+    run.cov["window_rounds"] = rounds
+    if "NOT-LINEARIZABLE" in w.stdout:
+        msg = [l for l in w.stdout.splitlines() if "NOT-LINEARIZABLE" in l][0]
+        path = run.write_replay({"kind": "not-linearizable", "scenario": "window", "history": msg,
+                                 "how_to_replay": "harness(-race, shim copy) -conc window -n 200"})
+        run.violations.append(("a concurrent history has no sequential explanation", msg[:300], path, True))
     stats = {"histories": 0, "candidate_orders": 0, "linearizable": 0, "not_linearizable": 0, "truncated": 0, "concurrent_ops": 0}
     if not os.path.exists(out):
         return
@@ -689,7 +699,7 @@ def config_pairs(run):
             path = run.write_replay({"kind": "correspondence-disagreement", "profile": "pairs" + tag, "first": bad[0]})
             run.violations.append(("model and implementation disagree (pairs " + tag + ")", f"{bad[0][0][:200]} | model: {bad[0][1][:150]}", path, True))
     stats = {"histories": len(A), "lines_compared": 0, "differences": 0}
-    skip = ("create", "open", "ls", "disk", "fsops", "control", "aidx", "reopen", "close")
+    skip = ("create", "open", "ls", "disk", "simg", "fsops", "control", "aidx", "reopen", "close")
     for hi, (ta, tb) in enumerate(zip(A, B)):
         ia = [l for l in ta if not l.startswith(skip)]
         ib = [l for l in tb if not l.startswith(skip)]
